@@ -327,3 +327,115 @@ pub fn replay_file<C: Check>(path: &Path, tier: Tier) -> Result<CaseInfo, Violat
     };
     C::run(&case, &ctx)
 }
+
+// ---------------------------------------------------------------- structural shrinker for saved cases
+
+fn sig_of(msg: &str) -> String {
+    // message class: strip hex/number details
+    msg.chars()
+        .map(|c| if c.is_ascii_digit() || ('a'..='f').contains(&c) { '#' } else { c })
+        .take(60)
+        .collect()
+}
+
+/// Delta-debugging style shrinker over the JSON form of a case (for cases that proptest could not
+/// shrink itself: worker aborts, hangs, cases imported from other checks).
+pub fn shrink_file<C: Check>(path: &Path, budget: usize) -> Option<(C::Case, Violation)> {
+    use serde_json::Value;
+    let s = std::fs::read_to_string(path).ok()?;
+    let v: Value = serde_json::from_str(&s).ok()?;
+    let mut cur = v.get("case").cloned().unwrap_or(v);
+    let ctx = Ctx {
+        tier: Tier::Quick,
+        shard: 98,
+        scratch: crate::hist::Scratch::new(&format!("{}.shrink", C::ID)),
+    };
+    let run = |val: &Value| -> Option<Violation> {
+        let case: C::Case = serde_json::from_value(val.clone()).ok()?;
+        std::panic::catch_unwind(std::panic::AssertUnwindSafe(|| C::run(&case, &ctx).err()))
+            .ok()
+            .flatten()
+    };
+    let first = run(&cur)?;
+    let want = sig_of(&first.msg);
+    let mut last = first;
+    let mut runs = 0usize;
+    // enumerate candidate edits by JSON pointer
+    fn paths(v: &Value, at: String, out: &mut Vec<String>) {
+        match v {
+            Value::Array(a) => {
+                out.push(at.clone());
+                for (i, x) in a.iter().enumerate() {
+                    paths(x, format!("{at}/{i}"), out);
+                }
+            }
+            Value::Object(o) => {
+                for (k, x) in o {
+                    paths(x, format!("{at}/{k}"), out);
+                }
+            }
+            Value::Number(_) | Value::Bool(_) => out.push(at),
+            _ => {}
+        }
+    }
+    let mut progress = true;
+    while progress && runs < budget {
+        progress = false;
+        let mut ps = Vec::new();
+        paths(&cur, String::new(), &mut ps);
+        // arrays first (largest effect)
+        ps.sort_by_key(|p| match cur.pointer(p) {
+            Some(Value::Array(a)) => 0usize.wrapping_sub(a.len()),
+            _ => 1,
+        });
+        'outer: for p in ps {
+            if runs >= budget {
+                break;
+            }
+            let Some(node) = cur.pointer(&p).cloned() else { continue };
+            let mut cands: Vec<Value> = Vec::new();
+            match &node {
+                Value::Array(a) if !a.is_empty() => {
+                    if a.len() > 3 {
+                        cands.push(Value::Array(a[..a.len() / 2].to_vec()));
+                        cands.push(Value::Array(a[a.len() / 2..].to_vec()));
+                    }
+                    for i in 0..a.len().min(12) {
+                        let mut b = a.clone();
+                        b.remove(i);
+                        cands.push(Value::Array(b));
+                    }
+                }
+                Value::Number(n) => {
+                    if let Some(x) = n.as_u64() {
+                        if x > 0 {
+                            cands.push(Value::from(0u64));
+                            cands.push(Value::from(x / 2));
+                            cands.push(Value::from(x - 1));
+                        }
+                    }
+                }
+                Value::Bool(true) => cands.push(Value::Bool(false)),
+                _ => {}
+            }
+            for c in cands {
+                if runs >= budget {
+                    break 'outer;
+                }
+                let mut trial = cur.clone();
+                *trial.pointer_mut(&p).unwrap() = c;
+                runs += 1;
+                if let Some(v) = run(&trial) {
+                    if sig_of(&v.msg) == want {
+                        cur = trial;
+                        last = v;
+                        progress = true;
+                        continue 'outer;
+                    }
+                }
+            }
+        }
+    }
+    let case: C::Case = serde_json::from_value(cur).ok()?;
+    Some((case, last))
+}
